@@ -333,9 +333,12 @@ func (w *world) runHistory(h int, kind string, ops []op) {
 		return
 	}
 	r := &res{}
-	if w.timeouts[kind] >= 4 {
+	if w.timeouts[kind] >= hk.Pick(5, 25) {
 		// every unanswered request costs gen.DefaultRequestTimeout; do not let a tree on which the
-		// requester no longer refuses locally turn the check into a harness timeout
+		// requester no longer refuses locally turn the check into a harness timeout. (A few unanswered
+		// requests are normal on the unchanged tree: net/proto/connection.go delivers a MessageResult with a
+		// non-blocking send on an unbuffered channel, so an answer that arrives before the requester
+		// reaches waitResult is dropped and the request "times out" although it was executed.)
 		r.inconclusive("watchdog: %d %s requests of this world got no answer from the target; remaining histories skipped", w.timeouts[kind], kind)
 		finish(id, "permissions", id, false, 0, r, nil)
 		return
